@@ -381,6 +381,8 @@ to_internal_location(struct hwloc_internal_location_s *iloc,
     }
     iloc->location.object.gp_index = location->location.object->gp_index;
     iloc->location.object.type = location->location.object->type;
+    /* the caller's object belongs to this topology: it is the cached pointer */
+    iloc->location.object.obj = location->location.object;
     return 0;
   default:
     errno = EINVAL;
